@@ -224,6 +224,9 @@ def run(F, R, tier):
     _r4_fab(F, R, gen_m, G3c, G4c)
     _r4_ixy(F, R, lv, gen)
 
+    # ---------------------------------------------------------------- R7 Phi for lambda^2 > 0
+    _r7_phi(F, R, gen_m)
+
     # ---------------------------------------------------------------- R6 scale-free regime tests
     R.rule("R6", "the test that selects an equal-argument expansion compares a scale-free quantity (x/y with 1), so that it "
                  "bounds the relative expansion variable (y-x)/x for arguments of every size in [1e-6, 1e6]", 6)
@@ -555,3 +558,101 @@ def _r4_ixy(F, R, lv, gen):
                     "I0y near 1: coefficient(s) %s differ from the series of log(y)/(y-1)" % bad, key="R4|I0y|1")
     except (SeriesError, NotPolynomial) as e:
         R.fail("R4", "I0y", F.loc(f), "comparison failed: %s" % str(e)[:150], key="R4|I0y")
+
+
+
+# ---- Phi(x,y,z) for lambda^2 > 0 ------------------------------------------------------------------------------------
+
+def _r7_phi(F, R, gen_m):
+    """phi_pos: generic branch == Phi[u,v,1] of ffunctions.m (arxiv:1607.06292 Eq.(68));  the small-argument
+    expansions l00, l0v, lv0 and the u == v expansion satisfy the quadratic equation of the quantity they expand,
+       t^2 - (1 + u - v) t + u = 0   for (1 - lambda + u - v)/2,     t^2 - (1 - u + v) t + v = 0   for (1 - lambda - u + v)/2,
+    to the stated order"""
+    R.rule("R7", "Phi for lambda^2 > 0: phi_pos generic branch == Phi[u,v,1] of ffunctions.m; l00, l0v, lv0 and the u = v expansion "
+                 "solve the defining quadratic of (1 - lambda +- (u - v))/2 to the stated order", 5)
+    f = fn(F, "phi_pos")
+    E = Evaluator(F, inline=lambda n_, g: bool(re.search(r"::(sqr|luv|lambda_2)$", n_)), max_depth=4)
+    v, fr = E.function_value(f)
+    ls = leaves(v)
+    g = generic_leaf(ls)
+    u, w = SYM("u"), SYM("v")
+    try:
+        gv = g[1]
+        for _ in range(6):
+            cs = ite_conds(gv)
+            if not cs:
+                break
+            gv = subst_fold(gv, {c: NUM(0) for c in cs if not ite_conds(c)})
+        code = canon(gv)
+        need = {"Phi", "LambdaK", "alphaPlus", "alphaMinus"}
+        if not need <= set(gen_m):
+            raise NotPolynomial("definitions %s missing in ffunctions.m" % sorted(need - set(gen_m)))
+        table = {}
+        for nm in need:
+            pats, rhs = gen_m[nm]
+            table[nm] = (lambda pats_, rhs_: (lambda *a_: inline_calls(subst_sym(mparse.expand_module(rhs_), dict(zip(pats_, a_))), table)))(pats, rhs)
+        ref = canon(table["Phi"](u, w, NUM(1)))
+        lam2 = canon(("-", ("*", ("-", ("-", NUM(1), u), w), ("-", ("-", NUM(1), u), w)), ("*", ("*", NUM(4), u), w)))
+        from .closedform import reduce_sqrt
+        same = reduce_sqrt((code * lam2 * Rat(Poly.const(Fraction(1, 2))) - ref).n).is_zero()
+        R.check("R7", same, "phi_pos(u,v) lambda^2/2 == Phi[u,v,1] (Davydychev-Tausk form of ffunctions.m)", F.loc(f),
+                "generic branch of phi_pos differs from Phi[x,y,z] of math/ffunctions.m", key="R7|phi_pos")
+    except (NotPolynomial, KeyError) as e:
+        R.soft_broken("R7 phi_pos: %s" % str(e)[:160])
+
+    def residual_orders(X, kind):
+        """monomials (i, j) of  X^2 - (1 +- (u - v)) X + (u | v)  after clearing denominators"""
+        one = Rat(Poly.const(1))
+        U, V = Rat(Poly.atom(u)), Rat(Poly.atom(w))
+        res = X * X - (one + U - V) * X + U if kind == "x" else X * X - (one - U + V) * X + V
+        return res
+    # l00(u,v): polynomial; exact up to and including u^3 v^3
+    for name in ("l00",):
+        f = fn(F, name)
+        try:
+            X = canon(generic_leaf(leaves(fold(F, f)))[1])
+            ok_kind = None
+            for kind in ("x", "y"):
+                r_ = residual_orders(X, kind)
+                low = [m for m in r_.n.t if dict(m).get(u, 0) <= 3 and dict(m).get(w, 0) <= 3]
+                if r_.d.is_const() and not low:
+                    ok_kind = kind
+            R.check("R7", ok_kind is not None, "%s(u,v) solves its quadratic through u^3 v^3 (%s-type root)" % (name, ok_kind), F.loc(f),
+                    "%s is not the expansion of (1 - lambda +- (u - v))/2 through O(u^3 v^3)" % name, key="R7|" + name)
+        except (NotPolynomial, TypeError) as e:
+            R.soft_broken("R7 %s: %s" % (name, str(e)[:120]))
+    # l0v, lv0: series in u with exact coefficients in v; exact through u^3
+    for name in ("l0v", "lv0"):
+        f = fn(F, name)
+        try:
+            X = canon(generic_leaf(leaves(fold(F, f)))[1])
+            ok_kind = None
+            for kind in ("x", "y"):
+                r_ = residual_orders(X, kind)
+                low = [m for m in r_.n.t if dict(m).get(u, 0) <= 3]
+                if not low and r_.d.degree_in(u) == 0:
+                    ok_kind = kind
+            R.check("R7", ok_kind is not None, "%s(u,v) solves its quadratic through u^3, exactly in v (%s-type root)" % (name, ok_kind), F.loc(f),
+                    "%s is not the expansion of (1 - lambda +- (u - v))/2 through O(u^3)" % name, key="R7|" + name)
+        except (NotPolynomial, TypeError) as e:
+            R.soft_broken("R7 %s: %s" % (name, str(e)[:120]))
+    # u == v branch of phi_pos: x = u (1 + u (1 + u (2 + 5 u))) solves t^2 - t + u = 0 through u^4
+    f = fn(F, "phi_pos")
+    found = False
+    for x_ in subterms(v):
+        if isinstance(x_, tuple) and len(x_) == 4 and x_[0] == "ite" and x_[1][0] == "cmp" and x_[1][2] == u:
+            try:
+                X = canon(x_[2])
+                if not X.d.is_const() or X.n.degree_in(u) < 2:
+                    continue
+                res = X * X - X + Rat(Poly.atom(u))
+                low = [m for m in res.n.t if dict(m).get(u, 0) <= X.n.degree_in(u)]
+                found = True
+                R.check("R7", not low, "phi_pos, u = v small: x(u) solves t^2 - t + u = 0 through u^%d" % X.n.degree_in(u), F.loc(f),
+                        "the small-u expansion of (1 - sqrt(1 - 4u))/2 in phi_pos is wrong at order %s"
+                        % sorted({dict(m).get(u, 0) for m in low})[:1], key="R7|uu")
+            except NotPolynomial:
+                continue
+            break
+    if not found:
+        R.soft_broken("R7: small-u expansion of the u == v branch of phi_pos not found")
